@@ -7,7 +7,8 @@ cd /verif
 LABELS=("$@"); [ ${#LABELS[@]} -eq 0 ] && LABELS=($(cd seeded && ls -d */ | tr -d /))
 MISSED=0
 for L in "${LABELS[@]}"; do
-  ID=${L%%-*}
+  # the check that catches the seed: its own property's, unless seeded/<label>/check names another
+  ID=$(cat "seeded/$L/check" 2>/dev/null || echo "${L%%-*}")
   R=$(tools/try_patch.sh "seeded/$L/patch.diff" "$ID" 2>&1 | tail -1 | cut -c1-260)
   echo "$L $R"
   case "$R" in *"exit=1"*) ;; *) MISSED=$((MISSED+1));; esac
